@@ -94,6 +94,11 @@ def leaves_of(d):
 
     def sec(s):
         inl(s['title'], True)
+        if s.get('toc'):
+            k = len(out)
+            inl(s['toc'], True)
+            for leaf in out[k:]:
+                leaf[1] = 'short'
         blocks(s['c'])
         for x in s['subs']:
             sec(x)
@@ -107,7 +112,7 @@ def cases(seed, tier, shard, nshards):
     for i in common.sharded(budget(tier)['n'], shard, nshards):
         r = common.rng_for(seed, PROP, i)
         d = docs.gen(r, adversarial=0.5, verbatim=False, refs=False, labels=r.random() < 0.5, math=r.random() < 0.3, depth=r.choice([1, 2]), maxsec=r.choice([2, 4, 6]),
-                     blocks=(1, 3), counters=False, eqnarray=False, star=True)
+                     blocks=(1, 3), counters=False, eqnarray=False, star=True, short_titles=0.3)
         # raw markup characters in verbatim material (no adversarial/bare difference in the markup they may create: both must be text)
         k = 9000
         for _ in range(r.randint(0, 2)):
@@ -232,11 +237,17 @@ def run(case, st):
             e = nows(exp)
             cnt = joined.count(e)
             st.feature('adversarial-form', advi)
+            if cnt == 0 and is_title == 'short' and marker not in joined:
+                # a short title is printed by tables of contents and navigation only: not every theme and split level shows one
+                st.counters['short_titles_not_shown'] += 1
+                continue
+            if is_title == 'short':
+                st.counters['short_titles_shown'] += 1
             if cnt == 0:
                 # what is displayed around the marker instead?
                 i = joined.find(marker)
                 ctx = joined[max(0, i - 25):i + 40] if i >= 0 else '(marker not in any text node)'
-                bad.append(('text-not-displayed-as-written/%s' % ('title' if is_title else 'body'), 'leaf %r is not displayed; around its marker the text nodes read %r' % (exp, ctx)))
+                bad.append(('text-not-displayed-as-written/%s' % ('short-title' if is_title == 'short' else 'title' if is_title else 'body'), 'leaf %r is not displayed; around its marker the text nodes read %r' % (exp, ctx)))
         # (iii) attribute values containing a marker
         exp_of = {m: e for e, t, m, a in case['leaves']}
         for n, p in parsed.items():
